@@ -240,7 +240,13 @@ pub fn generate(seed: u64, idx: u64) -> Scenario {
             (Some(_), 18) => {
                 s.unknown_request("workspace/unknown");
             }
-            (Some(_), _) => s.unknown_notification("$/progress"),
+            (Some(_), _) => {
+                if rng.chance(600) {
+                    s.client_chatter(rng.below(5));
+                } else {
+                    s.unknown_notification("$/progress");
+                }
+            }
         }
     }
     // final probes of every URI: the final state is read back
